@@ -1,5 +1,6 @@
 """C14 - node classes and tree traversal conform to the declarative AST specification."""
 from lib import *
+import io
 from nodecorr import *
 
 PROP_FILES = ["props/C14.v"]
@@ -103,6 +104,16 @@ def run(ctx, b, broken):
                 lines = impl_show(node, False, True, False, False).count("\n")
                 if lines != size:
                     bad = f"show() printed {lines} lines for {size} reachable nodes"
+        if not bad:
+            # the offset argument shifts every line by that many blanks and changes nothing else, whatever the other options
+            fl = [bool(ctx.rng.randint(0, 1)) for _ in range(4)]
+            k = ctx.rng.choice([1, 3, 8])
+            b0, bk = io.StringIO(), io.StringIO()
+            node.show(b0, attrnames=fl[0], showemptyattrs=fl[1], nodenames=fl[2], showcoord=fl[3])
+            node.show(bk, offset=k, attrnames=fl[0], showemptyattrs=fl[1], nodenames=fl[2], showcoord=fl[3])
+            want = "".join(" " * k + ln + "\n" for ln in b0.getvalue().split("\n")[:-1])
+            if bk.getvalue() != want and "\\n" not in json.dumps(v):
+                bad = f"show(offset={k}, attrnames={fl[0]}, showemptyattrs={fl[1]}, nodenames={fl[2]}, showcoord={fl[3]}) is not show() shifted by {k} blanks"
         if bad:
             ctx.violation({"property": "C14", "suite": suite, "value": v, "problem": bad})
             return
